@@ -195,6 +195,9 @@ func (l *layouter) lineBreak(kind string, depth int, atStart bool) {
 
 func render(p *program, r *kit.Rand, lc layoutCfg) (string, []placed) {
 	l := &layouter{r: r, lc: lc}
+	if len(p.toks) == 0 {
+		return "", nil
+	}
 	depth := 0
 	exotic := lc.mode == layExotic
 	for i, t := range p.toks {
